@@ -3,11 +3,13 @@ package sim
 import (
 	"fmt"
 	"math"
+	"os"
 	"runtime/debug"
 	"sort"
 	"strings"
 
 	"github.com/evolbioinfo/goalign/align"
+	"github.com/evolbioinfo/goalign/io/countprofile"
 	"github.com/evolbioinfo/goalign/verifrt"
 )
 
@@ -24,6 +26,7 @@ type C14Case struct {
 	Prof     []string  `json:"prof,omitempty"` // rows of another alignment of the same length: the count profile to compare with
 	MapSeeds [3]uint64 `json:"map_seeds"`
 	Ref      int       `json:"ref"` // reference row for the reference-relative counters
+	FromFile bool      `json:"from_file,omitempty"` // the alignment's own count profile also goes through a profile file (io/countprofile.FromFile)
 }
 
 type c14 struct{}
@@ -58,6 +61,16 @@ func (c14) Gen(rs uint64, tier string, race bool) interface{} {
 		n = r.Pick(255, 256, 257, 258, 300, 512, 513, 514)
 		l = r.Range(1, 3)
 	}
+	wide := !tall && r.Chance(0.006)
+	if wide {
+		// many columns: count profiles read from a file grow site by site past their first capacity
+		n = r.Range(1, 4)
+		l = r.Pick(99, 100, 101, 102, 130, 199, 200, 201, 257)
+	}
+	c.FromFile = wide || r.Chance(0.1)
+	if wide && r.Chance(0.8) {
+		lower = false
+	}
 	cols := make([][]byte, l)
 	for k := range cols {
 		col := make([]byte, n)
@@ -91,7 +104,7 @@ func (c14) Gen(rs uint64, tier string, race bool) interface{} {
 				pal = append(pal, "RYKM"[r.Intn(4)]) // IUPAC ambiguity (also amino acids)
 			}
 		}
-		if r.Chance(0.08) {
+		if r.Chance(0.08) && !(wide && r.Chance(0.995)) {
 			pal = append(pal, "*."[r.Intn(2)]) // stop / missing, identity marker: not counted by the entropy
 		}
 		for i := range col {
@@ -115,7 +128,16 @@ func (c14) Gen(rs uint64, tier string, race bool) interface{} {
 		}
 		cols[k] = col
 	}
-	if a.Alphabet == align.NUCLEOTIDS && !tall && r.Chance(0.06) {
+	if wide && !lower {
+		for _, col := range cols {
+			for i := range col {
+				if col[i] >= 'a' && col[i] <= 'z' {
+					col[i] -= 'a' - 'A'
+				}
+			}
+		}
+	}
+	if a.Alphabet == align.NUCLEOTIDS && !tall && !wide && r.Chance(0.06) {
 		// a codon alignment: every gap is a whole codon (the codon-by-codon mutation list has insertions and deletions
 		// to report, and no frame shift)
 		l = 3 * r.Range(1, 5)
@@ -344,6 +366,48 @@ func c14Eval(c *C14Case, al align.Alignment) *statSet {
 	}
 	g1, g2, g3, gerr = al.NumGapsUniquePerSequence(nil)
 	s.d("NumGapsUniquePerSequence(nil)", fmt.Sprint(g1, g2, g3, gerr))
+	if c.FromFile && prof.NbCharacters() > 0 && L > 0 {
+		// the same profile written as a profile file (the layout CountProfile.Print gives it) and read back
+		var tb strings.Builder
+		tb.WriteString("site")
+		nc := prof.NbCharacters()
+		rows := make([][]int, nc)
+		for i := 0; i < nc; i++ {
+			nm, _ := prof.NameAt(i)
+			fmt.Fprintf(&tb, "\t%c", nm)
+			rows[i], _ = prof.CountsAt(i)
+		}
+		tb.WriteString("\n")
+		for site := 0; site < L; site++ {
+			fmt.Fprintf(&tb, "%d", site)
+			for i := 0; i < nc; i++ {
+				fmt.Fprintf(&tb, "\t%d", rows[i][site])
+			}
+			tb.WriteString("\n")
+		}
+		if f, err := os.CreateTemp("", "c14prof*.txt"); err == nil {
+			f.WriteString(tb.String())
+			f.Close()
+			pf, perr := countprofile.FromFile(f.Name())
+			os.Remove(f.Name())
+			if perr != nil || pf == nil {
+				s.d("CountProfile.fromfile.sorted", fmt.Sprint("error: ", perr))
+			} else {
+				var ft []string
+				for i := 0; i < pf.NbCharacters(); i++ {
+					nm, _ := pf.NameAt(i)
+					cs, _ := pf.CountsAt(i)
+					ft = append(ft, fmt.Sprintf("%c%v", nm, cs))
+				}
+				sort.Strings(ft)
+				s.d("CountProfile.fromfile.sorted", strings.Join(ft, ";"))
+				f1, f2, f3, ferr := al.NumGapsUniquePerSequence(pf)
+				s.d("NumGapsUniquePerSequence(fromfile)", fmt.Sprint(f1, f2, f3, ferr))
+				h1, h2, h3, herr := al.NumMutationsUniquePerSequence(pf)
+				s.d("NumMutationsUniquePerSequence(fromfile)", fmt.Sprint(h1, h2, h3, herr))
+			}
+		}
+	}
 	// the count profile as a table, for the definition check
 	var pt []string
 	for i := 0; i < prof.NbCharacters(); i++ {
@@ -971,6 +1035,21 @@ func (c14) Run(ctx *Ctx, ci interface{}) (o Outcome) {
 		if got := s0.disc["CountProfile.sorted"]; got != strings.Join(pt, ";") {
 			o.Fail("definition:CountProfile", "counts per character and site are %s, the count profile says %s\n%s", strings.Join(pt, ";"), got, desc())
 			return
+		}
+		if got, ok := s0.disc["CountProfile.fromfile.sorted"]; ok {
+			o.Add("profile_through_a_file_checked", 1)
+			if got != strings.Join(pt, ";") {
+				o.Fail("definition:CountProfile-from-file", "counts per character and site are %s, the count profile read back from its file says %s\n%s", clip(strings.Join(pt, ";"), 400), clip(got, 400), desc())
+				return
+			}
+			if got, want := s0.disc["NumGapsUniquePerSequence(fromfile)"], fmt.Sprint(ugaps, zeros, zeros, nil); got != want {
+				o.Fail("definition:NumGapsUniquePerSequence", "with the alignment's own profile read from a file: %s by definition, %s reported\n%s", want, got, desc())
+				return
+			}
+			if got, want := s0.disc["NumMutationsUniquePerSequence(fromfile)"], fmt.Sprint(umuts, zeros, zeros, nil); got != want {
+				o.Fail("definition:NumMutationsUniquePerSequence", "with the alignment's own profile read from a file: %s by definition, %s reported\n%s", want, got, desc())
+				return
+			}
 		}
 		if got, want := s0.disc["NumGapsUniquePerSequence(nil)"], fmt.Sprint(ugaps, zeros, zeros, nil); got != want {
 			o.Fail("definition:NumGapsUniquePerSequence", "gaps that are alone in their column, per row: %s by definition, %s reported (uniques, new, both, error)\n%s", want, got, desc())
